@@ -250,7 +250,7 @@ pub fn gen(rng: &mut Rng, miri: bool) -> ASet {
     ASet { meta, clips, sets }
 }
 
-pub const REQUIRED: &[&str] = &["every_single_slot", "no_sets", "empty_set", "full_set", "unlabelled_set", "only_bit_31", "only_group_7"];
+pub const REQUIRED: &[&str] = &["every_single_slot", "no_sets", "empty_set", "full_set", "unlabelled_set", "only_bit_31", "only_group_7", "poisoned_by_failing_calls_first"];
 
 pub fn run(cx: &mut Ctx) {
     cx.require(REQUIRED);
@@ -315,6 +315,7 @@ pub fn run(cx: &mut Ctx) {
     let n = cx.a.n(20_000, 300_000);
     for _ in 0..n {
         cx.case("random", |c| {
+            super::poison::maybe(c, 5);
             let mut rng = c.rng.clone();
             let a = gen(&mut rng, miri);
             check(c, &a, "random");
